@@ -118,7 +118,9 @@ func TestC12Shutdown(t *testing.T) {
 				// the application holds a message (it is not reading) while the
 				// broker closes; the next writer is the first to learn of it
 				h.brokerSend(byte(rapid.IntRange(0, 2).Draw(rt, "qos")), 5)
-				h.Current().Break(true)
+				if cur := h.Current(); cur != nil {
+					cur.Break(true)
+				}
 				request(rapid.SampledFrom([]int{0, 1, 2, 3}).Draw(rt, "firstToNotice"))
 			}
 			if state == "writers-parked" {
@@ -130,7 +132,9 @@ func TestC12Shutdown(t *testing.T) {
 				h.armWrite(rapid.IntRange(0, 1).Draw(rt, "failOff"), rapid.SampledFrom([]int{sim.WTimeout, sim.WReset}).Draw(rt, "failKind"))
 			}
 			if state == "reconnect-pending" {
-				h.Current().Break(rapid.Bool().Draw(rt, "graceful"))
+				if cur := h.Current(); cur != nil {
+					cur.Break(rapid.Bool().Draw(rt, "graceful"))
+				}
 				h.settleInbound()
 			}
 		case "offline-after-failed-connect":
